@@ -1649,14 +1649,15 @@ class AbsPaths:
         val = None
         if k == "use":
             val = self._eval_operand(st, r["o"])
-        elif k == "agg" and ("adt" in r or "tuple" in r or "closure" in r):
+        elif k == "agg" and ("adt" in r or "tuple" in r or "closure" in r or "coroutine" in r):
             fields = []
             for i, o in enumerate(r["ops"]):
                 fv = self._eval_operand(st, o)
                 if fv is not None:
                     fields.append((i, fv))
-            val = ("variant", r["v"] if "adt" in r else (("{closure}:" + r["closure"]) if "closure" in r else "()"), tuple(fields))
-        elif k == "agg" and not any(x in r for x in ("adt", "tuple", "closure", "coroutine", "coroutine_closure")):
+            val = ("variant", r["v"] if "adt" in r else (("{closure}:" + r["closure"]) if "closure" in r else
+                                                          (("{coroutine}:" + r["coroutine"]) if "coroutine" in r else "()")), tuple(fields))
+        elif k == "agg" and not any(x in r for x in ("adt", "tuple", "closure", "coroutine", "coroutine_closure")) and r.get("ops") is not None:
             # array literal
             fields = []
             for i, o in enumerate(r["ops"]):
@@ -1700,7 +1701,10 @@ class AbsPaths:
         # the per-path state themselves and say whether they handled the call
         for rx, rfn in self.raw:
             if any(rx.search(c) for c in (site.nres, site.ndecl, site.res, site.decl) if c):
-                if rfn(self, st, t, site):
+                r = rfn(self, st, t, site)
+                if isinstance(r, list):
+                    return r     # a nondeterministic call: the alternative successor states (only `outcomes` follows them)
+                if r:
                     return
         matched_oracle = False
         for rx, ofn in self.oracles:
@@ -1784,7 +1788,7 @@ class AbsPaths:
             return v not in listed
         return str(lab.value).lstrip("-").isdigit() and int(lab.value) == v
 
-    def outcomes(self, state=None, start=0, observe_blocks=(), extra_keys=()):
+    def outcomes(self, state=None, start=0, observe_blocks=(), extra_keys=(), stop_blocks=()):
         """Decision-table evaluation: explores all feasible paths from `start` under `state` / the oracles and returns the
         set of (abstract return value, frozenset of observe_blocks visited) over the paths that reach a return."""
         fn = self.fn
@@ -1811,33 +1815,39 @@ class AbsPaths:
                     else:
                         self._assign(st, s)
             t = fn.term(b)
-            if t["k"] == "return":
+            if t["k"] == "return" or b in stop_blocks:
+                # a stop block ends the path like a return does: the state right before its terminator is reported
+                rv = st.get(0) if t["k"] == "return" else ("const", "stopped@bb%d" % b)
                 if extra_keys:
-                    out.add((_freeze(st.get(0)), vis, tuple(st.get(k) for k in extra_keys)))
+                    out.add((_freeze(rv), vis, tuple(st.get(k) if not callable(k) else k(st) for k in extra_keys)))
                 else:
-                    out.add((_freeze(st.get(0)), vis))
+                    out.add((_freeze(rv), vis))
                 continue
+            alts = [st]
             if t["k"] == "call":
                 if is_noise(t):
                     st.pop(t["dest"]["l"], None)
                 else:
-                    self._call(st, t)
+                    forks = self._call(st, t)
+                    if forks is not None:
+                        alts = forks
             elif t["k"] == "yield":
                 st.pop(t["ra"]["l"], None)
-            for s2 in fn.succ[b]:
-                lab = self.labels.get((b, s2))
-                if lab is not None and t["k"] == "switch":
-                    if lab.kind == "variant":
-                        v = self._eval_place(st, lab.place)
-                        if v is not None and v[0] == "variant" and v[1] not in lab.variants:
+            for st in alts:
+                for s2 in fn.succ[b]:
+                    lab = self.labels.get((b, s2))
+                    if lab is not None and t["k"] == "switch":
+                        if lab.kind == "variant":
+                            v = self._eval_place(st, lab.place)
+                            if v is not None and v[0] == "variant" and v[1] not in lab.variants:
+                                continue
+                        elif lab.kind == "bool" and lab.raw is not None:
+                            v = self._eval_operand(st, t["o"])
+                            if v is not None and v[0] == "const" and v[1] in ("true", "false") and (v[1] == "true") != lab.raw:
+                                continue
+                        elif lab.kind == "int" and not self._int_edge_feasible(st, t, lab):
                             continue
-                    elif lab.kind == "bool" and lab.raw is not None:
-                        v = self._eval_operand(st, t["o"])
-                        if v is not None and v[0] == "const" and v[1] in ("true", "false") and (v[1] == "true") != lab.raw:
-                            continue
-                    elif lab.kind == "int" and not self._int_edge_feasible(st, t, lab):
-                        continue
-                stack.append((s2, tuple(sorted(st.items())), vis))
+                    stack.append((s2, tuple(sorted(st.items())), vis))
         return out
 
     def values_at(self, block, operand, start=0):
@@ -1882,7 +1892,8 @@ class AbsPaths:
                 if is_noise(t):
                     st.pop(t["dest"]["l"], None)
                 else:
-                    self._call(st, t)
+                    if self._call(st, t) is not None:
+                        st.pop(t["dest"]["l"], None)   # nondeterministic oracle: unknown here
             nxt = []
             for s2 in fn.succ[b]:
                 lab = self.labels.get((b, s2))
@@ -1939,7 +1950,8 @@ class AbsPaths:
                 if is_noise(t):
                     st.pop(t["dest"]["l"], None)
                 else:
-                    self._call(st, t)
+                    if self._call(st, t) is not None:
+                        st.pop(t["dest"]["l"], None)   # nondeterministic oracle: unknown here
             elif t["k"] == "yield":
                 st.pop(t["ra"]["l"], None)
             for s2 in fn.succ[b]:
